@@ -4,6 +4,7 @@ package main
 
 import (
 	"encoding/json"
+	"os/exec"
 	"flag"
 	"fmt"
 	"os"
@@ -43,9 +44,10 @@ type Ledger struct {
 
 type KnownFinding struct {
 	Property   string `json:"property"`
-	Obligation string `json:"obligation"`
+	Obligation string `json:"obligation"` // obligation name, with or without the #occurrence suffix
 	What       string `json:"what"`
-	Witness    string `json:"witness,omitempty"`
+	Witness    string `json:"witness,omitempty"`        // Zn program demonstrating the defect on the real interpreter
+	Expect     string `json:"witness_expect,omitempty"` // substring of the runner's output when the defect is present
 }
 
 type KnownFile struct {
@@ -193,12 +195,13 @@ func cmdCheck(args []string) {
 	isKnown := func(name string) *KnownFinding {
 		for i := range known.Findings {
 			k := &known.Findings[i]
-			if k.Property == *prop && k.Obligation == name {
+			if k.Property == *prop && (k.Obligation == name || k.Obligation == clauseOf(name)) {
 				return k
 			}
 		}
 		return nil
 	}
+	witnessCache := map[string]string{}
 
 	if *update {
 		nl := Ledger{Property: *prop, Obligations: map[string]LedgerEntry{}, Verified: map[string]bool{}}
@@ -273,9 +276,22 @@ func cmdCheck(args []string) {
 				continue
 			}
 			if k := isKnown(o.Name); k != nil {
-				if !seenKnown[o.Name] {
-					seenKnown[o.Name] = true
-					knownHit = append(knownHit, fmt.Sprintf("KNOWN-FINDING: property=%s %s — %s", *prop, o.Name, k.What))
+				if !seenKnown[k.Obligation] {
+					seenKnown[k.Obligation] = true
+					line := fmt.Sprintf("KNOWN-FINDING: property=%s %s — %s", *prop, k.Obligation, k.What)
+					if k.Witness != "" {
+						out, ok := witnessCache[k.Witness]
+						if !ok {
+							out = runZnWitness(*repo, root, k.Witness)
+							witnessCache[k.Witness] = out
+						}
+						if k.Expect != "" && strings.Contains(out, k.Expect) {
+							line += " [witness program re-run on the real interpreter: defect reproduced: " + firstLines(out, 1) + "]"
+						} else {
+							line += " [witness program re-run: outcome now: " + firstLines(out, 1) + "]"
+						}
+					}
+					knownHit = append(knownHit, line)
 				}
 				continue
 			}
@@ -497,4 +513,27 @@ func clauseOf(name string) string {
 		return name[:i]
 	}
 	return name
+}
+
+// runZnWitness runs one Zn program through the real interpreter of the working tree (go test -overlay, fresh process).
+func runZnWitness(repo, root, source string) string {
+	dir, err := os.MkdirTemp("", "znwit")
+	if err != nil {
+		return "witness runner error: " + err.Error()
+	}
+	defer os.RemoveAll(dir)
+	progs, _ := json.Marshal([]map[string]string{{"name": "witness", "source": source}})
+	os.WriteFile(filepath.Join(dir, "in.json"), progs, 0o644)
+	ov := fmt.Sprintf(`{"Replace":{"%s/pkg/exec/zz_znrun_test.go":"%s/tools/znrun/znrun_test.go"}}`, repo, root)
+	os.WriteFile(filepath.Join(dir, "ov.json"), []byte(ov), 0o644)
+	cmd := exec.Command("go", "test", "-overlay", filepath.Join(dir, "ov.json"), "-vet=off", "-count=1", "-timeout", "60s", "-v", "-run", "TestZnvcRun", "./pkg/exec")
+	cmd.Dir = repo
+	cmd.Env = append(os.Environ(), "ZNRUN_IN="+filepath.Join(dir, "in.json"), "GOFLAGS=-mod=mod", "GOPROXY=off", "GOSUMDB=off", "GOTOOLCHAIN=local")
+	out, _ := cmd.CombinedOutput()
+	for _, ln := range strings.Split(string(out), "\n") {
+		if strings.HasPrefix(ln, "ZNRUN witness ") {
+			return strings.TrimPrefix(ln, "ZNRUN witness ")
+		}
+	}
+	return "witness runner produced no result: " + firstLines(string(out), 3)
 }
